@@ -1,6 +1,7 @@
 """C19 — string utilities compute exactly their documented function with bounded writes."""
 import itertools, os
 import vlib
+from checks import c19_more
 from vlib import Check, Stream, hexs
 
 WS = b" \t\r\n"
@@ -112,7 +113,17 @@ class TheCheck(Check):
                    "qstrreplace: search token non-empty; mode r: the caller's block has room for the result "
                    "and its terminator (documented precondition)",
                    "qstrgets, qstrcpy, qstrncpy: size >= 1 is the size of the destination block; "
-                   "qstrncpy: nbytes does not exceed the bytes readable at src"]
+                   "qstrncpy: nbytes does not exceed the bytes readable at src",
+                   "snprintf/vsnprintf (%u, %d, %s), atoi of 1-3 digits, strchr, strdup, strcat and the <ctype.h> "
+                   "classes of the C locale are modelled by their C-standard definitions; glibc tolerates the "
+                   "plain (signed) char qstrtest passes to the test function",
+                   "qstr_is_ip4addr: leading zeros in a part are tolerated (as the code always did); "
+                   "qstr_is_email: the documentation names no grammar, the reference is the declarative "
+                   "description isEmail in Str/SpecMore.lean; the Python oracle judges only the clear cases of both",
+                   "qstrcatf: the caller's block has room for the appended text and its terminator; "
+                   "qstrdupf/qstrcatf are exercised with the formats %s, %d and %s=%s",
+                   "qstrunique: only length and alphabet of the result (time, pid and rand() are not modelled); "
+                   "qstr_conv_encoding (iconv) is not covered"]
     exhaustive_note = True
 
     def nontrivial_key(self, op, line):
@@ -285,6 +296,8 @@ class TheCheck(Check):
                 s = rstr(0, 80, alpha)
                 rs.append("dupb %s %s %s" % (hexs(s), hexs(rstr(0, 3, alpha)), hexs(rstr(0, 3, alpha))))
         sts.append(Stream("random", rs))
+        # 8. comma number, IPv4 / e-mail tests, qstrtest, qstrdupf / qstrcatf, qstrunique
+        sts += c19_more.streams(self)
         return sts
 
     @staticmethod
@@ -344,6 +357,8 @@ class TheCheck(Check):
         return None
 
     def _judge(self, kind, w, f, line):
+        if kind in c19_more.KINDS:
+            return c19_more.judge(kind, w, f, line)
         if kind in ("trim", "trimh", "trimt", "rev", "upper", "lower"):
             x = unhex(w[1])
             s = cstr(x)
